@@ -50,7 +50,7 @@ def main():
             "kind_free_text": "Coq 8.16.1 development (coq/: Base, Model, Spec, Proofs, Properties, Extract), extracted OCaml model runner (runner/driver.ml + extracted model), Go differential harness with property oracles (harness/), Python orchestrator (check), mutation self-test (lib/selftest.py, seeded/)",
         }],
         "checks": [],
-        "notes": "Every check: (1) full make of the Coq development + Print Assumptions under every theorem of Properties/<id>.v + lint (no Admitted/admit/Axiom/Parameter/...); (2) harness rebuilt against /repo with -tags verif; (3) correspondence: corpus + generated cases run on the implementation and on the extracted model, observables compared line by line; (4) the property's own oracle on the implementation; (5) verdict per DESIGN.md section 5 and evidence. Thorough adds a clean rebuild + coqchk -o over all Properties modules (shared stamp), 50-200x the cases, and an in-Coq vm_compute re-evaluation of a 300-case sub-corpus. known_findings.json lists 2 open findings (C03, C14; both pinned by upstream tests) and 34 'fixed:' records.",
+        "notes": "Every check: (1) full make of the Coq development + Print Assumptions under every theorem of Properties/<id>.v + lint (no Admitted/admit/Axiom/Parameter/...); (2) harness rebuilt against /repo with -tags verif; (3) correspondence: corpus + generated cases run on the implementation and on the extracted model, observables compared line by line; (4) the property's own oracle on the implementation; (5) verdict per DESIGN.md section 5 and evidence. Thorough adds a clean rebuild + coqchk -o over all Properties modules (shared stamp), 50-200x the cases, and an in-Coq vm_compute re-evaluation of a 300-case sub-corpus. known_findings.json lists 2 open findings (C03, C14; both pinned by upstream tests) and 35 'fixed:' records.",
         "not_applicable": [],
     }
     for pid in sorted(P):
